@@ -18,7 +18,7 @@ from .registry import THEOREMS_C10 as THEOREMS  # noqa: E402
 META = {
     "technique": "Lean 4 state-machine invariant over arbitrary crash/resume histories (model MDOut: HDF5 cursors, XYZ buffer, atomic checkpoint cell) + crash-history correspondence with real SIGKILL/exception injection",
     "level_text": "Theorem resume_any_history: for every cadence configuration and every finite sequence of crashes (any step, any point inside the step's output/checkpoint sequence, exception or SIGKILL with arbitrary loss of unflushed data), resuming from the checkpoint and running to completion leaves exactly the files of an uninterrupted run; every intermediate disk satisfies the checkpoint invariant. The model is tied to the code by running the real engines (stub and real force engine) in child processes with crashes injected at the same points and diffing every HDF5 dataset label, XYZ frame and checkpoint step against the compiled model, segment by segment. Round 2 (C10b): value-level refinement - every written row holds the observation of the state at its label and the final files (values included) equal those of the uninterrupted run for every crash history, under the explicit hypothesis CkptComplete (load(save s) = s on reachable checkpoint states), whose audit against the real checkpoint code found F23-F25; a fifth (nonadiabatic) stream written inside the integrator step is covered; an incomplete checkpoint is proved to break resume.",
-    "level_note": "Trusted: Lean kernel; harness (fork, SIGKILL, h5py/torch.load readers). Assumed, as explicit model structure: os.replace is atomic; a flushed HDF5 file stays openable after SIGKILL (library behaviour, validated in every hard-crash case, not proved); the dynamics is a deterministic function of the checkpointed state (validated bitwise against the reference run). Surface-hopping resume is outside the model (known finding F9: the repository's own resume test fails at this commit).",
+    "level_note": "Trusted: Lean kernel; harness (fork, SIGKILL, h5py/torch.load readers). Assumed, as explicit model structure: os.replace is atomic; a flushed HDF5 file stays openable after SIGKILL (library behaviour, validated in every hard-crash case, not proved); the dynamics is a deterministic function of the checkpointed state (validated bitwise against the reference run). The surface-hopping engine is covered by the sh_resume probe (stop right after a checkpoint, resume, every dataset compared by value with the uninterrupted run); it found F9 (the checkpoint did not store the molecular orbitals; repaired in 258ef68, which also makes the repository's own surface-hopping resume test pass); its nonadiabatic stream is in the value-level model (C10b), its crash points inside the step are not enumerated.",
     "design_ref": "DESIGN.md section 5 C10",
     "modelled": {"HDF5Writer._open_resume cursors": True, "XYZWriter append/truncate": True, "_flush_all + _atomic_save_checkpoint": True,
                  "run_from_checkpoint XL history restore": "C09 buffer theorem + bitwise probe", "NonadiabaticDynamics resume": False},
@@ -101,7 +101,34 @@ def probe_history(inp):
     return evaluate(inp, history_case(inp))
 
 
-PROBES = {"crash_history": probe_history}
+def probe_sh_resume(inp):
+    """surface-hopping engine: a run stopped right after a checkpoint and resumed must leave, dataset by dataset and value by value, the files of the
+    uninterrupted run (electronic amplitudes, time-derivative couplings and active surface included)"""
+    sc = inp["sc"]
+    a = mdh.surface_hopping_run(sc, stop_at=None, values=True)
+    b = mdh.surface_hopping_run(sc, stop_at=inp["stop_at"], values=True)
+    bad = []
+    worst = {}
+    for m in sc.get("molid", [0]):
+        va, vb = a[m]["values"], b[m]["values"]
+        if sorted(va) != sorted(vb):
+            bad.append(f"mol{m}: datasets differ: {sorted(set(va) ^ set(vb))[:6]}")
+            continue
+        for name in sorted(va):
+            x, y = np.asarray(va[name], dtype=float), np.asarray(vb[name], dtype=float)
+            if x.shape != y.shape:
+                bad.append(f"mol{m}: {name} shape {x.shape} vs {y.shape}")
+                continue
+            d = float(np.abs(x - y).max()) if x.size else 0.0
+            if d > inp.get("tol", 1e-8):
+                first = int(np.argwhere(np.abs(x - y).reshape(x.shape[0], -1).max(1) > inp.get("tol", 1e-8))[0][0]) if x.ndim else 0
+                bad.append(f"mol{m}: {name} differs by {d:.3e} (first differing row {first})")
+                worst[name] = d
+    return {"ok": not bad, "observed": bad[:8], "expected": "resumed surface-hopping run = uninterrupted run, every dataset by value",
+            "predicate": "max |a - b| <= 1e-8 per dataset", "fields": {"kinds": ["sh_resume_values"] if bad else [], "engine": "sh", "datasets": sorted(worst)[:6]}}
+
+
+PROBES = {"crash_history": probe_history, "sh_resume": probe_sh_resume}
 
 
 def model_line(sc, eff) -> str:
@@ -267,6 +294,18 @@ def run(ctx: Ctx):
                            nontrivial=len(eff) > 0, stratum=sc["engine"])
     finally:
         drv.close()
+    # the surface-hopping engine (real CIS engine; stop right after a checkpoint, resume, compare every dataset by value with the uninterrupted run)
+    sh_cases = []
+    for j in range(3 if ctx.thorough else 1):
+        mols = [["ch2o"], ["h2o"], ["ch2o", "ch2o"]][(j + ctx.seed) % 3]
+        ck = [2, 3, 2][(j + ctx.seed) % 3]
+        sh_cases.append({"sc": dict(mols=mols, molid=list(range(len(mols))), cad=dict(data=1, coordinates=1, velocities=1, forces=1, nonadiabatic=1, ckpt=ck), steps=ck + 3, dt=0.5, temp=300.0,
+                                    n_states=2 + (j % 2), seed=int(ctx.rng.integers(1, 999))), "stop_at": ck})
+    for inp, r in zip(sh_cases, mdh.pmap(probe_sh_resume, sh_cases, timeout=1500)):
+        if isinstance(r, Exception) or r is None:
+            ctx.obligation("sh_resume harness", False, repr(r)[:800], kind="harness")
+            continue
+        ctx.probe_case("sh_resume", inp, r["ok"], fields=r["fields"], observed=r["observed"], expected=r["expected"], predicate=r["predicate"], stratum="sh")
     effs = [r["effective"] for r in results if isinstance(r, dict)]
     ctx.extra["input_distribution"] = {
         "histories": len(cases),
